@@ -18,6 +18,7 @@ type ConcParams struct {
 	OpAtomic               int  // percent of runs with op-atomic schedules
 	SingleOwner            bool // each key written by one client only (C15 final state)
 	Abandon                bool // discarded / failed transactions (C08)
+	PanicAbandon           bool // C08: half of the failing Update closures panic instead of returning the error
 	LongReaders            bool
 	Rotate                 bool // small thresholds
 	MaxKeys                int
@@ -150,6 +151,7 @@ func GenConc(seed uint64, prop string, p ConcParams) *Case {
 			if p.Abandon && update && r.Intn(4) == 0 {
 				if t.Mode == "update" {
 					t.End = "error"
+					t.Panic = p.PanicAbandon && t.ID%2 == 0
 				} else {
 					t.End = "discard"
 				}
